@@ -1,6 +1,7 @@
 package props
 
 import (
+	"strings"
 	"fmt"
 	"go/ast"
 	"go/token"
@@ -13,14 +14,16 @@ func init() {
 	Register(&Prop{
 		Meta: core.Meta{
 			ID: "C09", Title: "Export eligibility and attribute rewriting follow the BGP RFCs", Level: "other",
-			Technique:   "guard-formula agreement (R-FORM): exact path conditions of every export verdict and rewrite, extracted from the structured code and evaluated against the RFC tables on all valuations of their atoms; attribute-table agreement between the rewrites and the wire attribute list",
+			Technique:   "abstract interpretation of the prepend routine over a five-state model of the first AS_PATH segment; guard-formula agreement (R-FORM): exact path conditions of every export verdict and rewrite, extracted from the structured code and evaluated against the RFC tables on all valuations of their atoms; attribute-table agreement between the rewrites and the wire attribute list",
 			DesignRef:   "DESIGN.md §3 R-FORM, §4 C09",
-			Decided:     "(1) isDisallowedByCommunity says `do not advertise` for a community c exactly when c = NO_ADVERTISE ∨ (c = NO_EXPORT ∧ ¬iBGP), and the scan over the communities is never cut short by another return; (2) isOwnPath ⇔ path type = session type = BGP ∧ source = peer; ShouldPropagateUpdate is the conjunction of the two negations; (3) the iBGP rule set refuses exactly ¬redistributed ∧ ¬eBGP-learned ∧ ¬RR-client, stamps ORIGINATOR_ID exactly when RR-client ∧ none present (with the source's id) and puts the local cluster ID at the head of the CLUSTER_LIST exactly for RR clients; (4) the eBGP rule set prepends the local ASN once and sets next-hop-self exactly for non-route-server-clients, refuses exactly `roles negotiated ∧ OTC present ∧ peer is provider/peer/RS` and stamps OTC with the local ASN exactly for `roles negotiated ∧ OTC absent ∧ peer is customer/peer/RS-client` (RFC 9234 §5 egress, 288 valuations); (5) PathAttributes emits LOCAL_PREF exactly for iBGP, ORIGINATOR_ID and CLUSTER_LIST exactly for RR clients; (6) every attribute the export rewrites can set is read by PathAttributes, i.e. has a way onto the wire.",
+			Decided:     "(1) isDisallowedByCommunity says `do not advertise` for a community c exactly when c = NO_ADVERTISE ∨ (c = NO_EXPORT ∧ ¬iBGP), and the scan over the communities is never cut short by another return; (2) isOwnPath ⇔ path type = session type = BGP ∧ source = peer; ShouldPropagateUpdate is the conjunction of the two negations; (3) the iBGP rule set refuses exactly ¬redistributed ∧ ¬eBGP-learned ∧ ¬RR-client, stamps ORIGINATOR_ID exactly when RR-client ∧ none present (with the source's id) and puts the local cluster ID at the head of the CLUSTER_LIST exactly for RR clients; (4) the eBGP rule set prepends the local ASN once and sets next-hop-self exactly for non-route-server-clients, refuses exactly `roles negotiated ∧ OTC present ∧ peer is provider/peer/RS` and stamps OTC with the local ASN exactly for `roles negotiated ∧ OTC absent ∧ peer is customer/peer/RS-client` (RFC 9234 §5 egress, 288 valuations); (4b) BGPPath.Prepend never grows a leading AS_SET and never indexes an empty path: by abstract interpretation over the state of the first segment (none / AS_SEQUENCE / AS_SET × below / at 255 ASNs), started from every state, a new leading AS_SEQUENCE is in place whenever the ASN is written (RFC 4271 §5.1.2 b); (5) PathAttributes emits LOCAL_PREF exactly for iBGP, ORIGINATOR_ID and CLUSTER_LIST exactly for RR clients; (6) every attribute the export rewrites can set is read by PathAttributes, i.e. has a way onto the wire.",
 			NotDecided:  "byte-level content of the serialised attributes (C17); which sessions a path is shown to (C04/C08).",
 			TrustedBase: append([]string{"RFC 1997 / 4271 / 4456 / 9234 export tables transcribed in engine/props/c09.go"}, stdTrusted...),
 		},
 		Run: runC09,
 		Controls: []Control{
+			{Name: "prepend-into-leading-as-set", File: "route/bgp_path.go", Old: "\tif first.Type == types.ASSet {\n\t\tb.insertNewASSequence()\n\t}\n", New: "\tif first.Type == types.ASSet && len(first.ASNs) >= types.MaxASNsSegment {\n\t\tb.insertNewASSequence()\n\t}\n", Expect: "prepend-into-sequence"},
+			{Name: "refactor-prepend-through-helper", Silent: true, File: "route/bgp_path.go", Old: "\tif len(*b.ASPath) == 0 {\n\t\tb.insertNewASSequence()\n\t}\n\n\tfirst := (*b.ASPath)[0]\n\tif first.Type == types.ASSet {\n\t\tb.insertNewASSequence()\n\t}\n\n\tfor i := 0; i < int(times); i++ {\n\t\tif len((*b.ASPath)[0].ASNs) >= types.MaxASNsSegment {\n\t\t\tb.insertNewASSequence()\n\t\t}\n", New: "\tfor i := 0; i < int(times); i++ {\n\t\tif len(*b.ASPath) == 0 || (*b.ASPath)[0].Type != types.ASSequence || len((*b.ASPath)[0].ASNs) > types.MaxASNsSegment-1 {\n\t\t\tb.insertNewASSequence()\n\t\t}\n"},
 			{Name: "no-export-to-ibgp-blocked", File: "routingtable/update_helper.go", Old: "(com == types.WellKnownCommunityNoExport && !sa.IBGP)", New: "(com == types.WellKnownCommunityNoExport)", Expect: "community-table"},
 			{Name: "ibgp-to-ibgp-reflected-to-non-client", File: "routingtable/adjRIBOut/adj_rib_out.go", Old: "if !p.BGPPath.BGPPathA.EBGP && a.sessionAttrs.IBGP && !a.sessionAttrs.RouteReflectorClient {", New: "if !p.BGPPath.BGPPathA.EBGP && a.sessionAttrs.IBGP && a.sessionAttrs.RouteReflectorClient {", Expect: "ibgp-rule-table"},
 			{Name: "otc-egress-to-provider", File: "routingtable/adjRIBOut/adj_rib_out.go", Old: "(pr == packet.PeerRoleRoleProvider || pr == packet.PeerRoleRolePeer || pr == packet.PeerRoleRoleRS) {\n\t\t\treturn nil, false", New: "(pr == packet.PeerRoleRolePeer || pr == packet.PeerRoleRoleRS) {\n\t\t\treturn nil, false", Expect: "ebgp-rule-table"},
@@ -32,6 +35,7 @@ func init() {
 
 func runC09(c *core.Ctx) {
 	p := c.P
+	prependIntoSequence(c)
 	sa := func(n string) *types.Var { return p.Field("routingtable", "SessionAttrs", n) }
 	pa := func(n string) *types.Var { return p.Field("route", "BGPPathA", n) }
 	// (1) communities ------------------------------------------------------------------------------
@@ -399,4 +403,32 @@ func findStore(f *core.Fn, field *types.Var) *ast.AssignStmt {
 		return true
 	})
 	return out
+}
+
+// prependIntoSequence: RFC 4271 §5.1.2 b – the local ASN goes into a leading AS_SEQUENCE; when the path starts with an
+// AS_SET (or has no segment) a new AS_SEQUENCE is put in front first.  Decided by the abstract interpreter in prependai.go.
+func prependIntoSequence(c *core.Ctx) {
+	const rule = "prepend-into-sequence"
+	c.Floor(rule, 1)
+	res := prependAbstract(c)
+	if res.Fn == nil {
+		return
+	}
+	f := res.Fn
+	c.Analysed(f)
+	construct := f.Name() + " writes the ASN into a leading AS_SEQUENCE"
+	if len(res.Undecided) > 0 {
+		c.Undecided(rule, construct, f.Decl.Pos(), "abstract interpretation of Prepend incomplete: "+strings.Join(res.Undecided, "; "))
+		return
+	}
+	var bad []string
+	pos := f.Decl.Pos()
+	for _, v := range res.Viol {
+		if v.kind == "set" || v.kind == "empty" {
+			bad = append(bad, c.P.Pos(v.pos)+" reached with first segment = "+v.st.String())
+			pos = v.pos
+		}
+	}
+	c.Check(len(bad) == 0 && res.Writes >= 1, rule, construct, pos,
+		"the prepend can touch the first segment while the path is empty or starts with an AS_SET ("+strings.Join(bad, "; ")+"): the local ASN is inserted into the set (or the code indexes an empty path) instead of a new leading AS_SEQUENCE, so the exported AS_PATH no longer shows the local AS in sequence")
 }
